@@ -501,7 +501,10 @@ class AbstractJob:                                      # pylint: disable=R0902
                     self.required.remove(requirement)
             elif isinstance(requirement, Sequence):
                 if requirement.jobs:
-                    self._add_one_requirement(requirement.jobs[-1])
+                    if not remove:
+                        self._add_one_requirement(requirement.jobs[-1])
+                    else:
+                        self.required.remove(requirement.jobs[-1])
             elif isinstance(requirement, (tuple, list, set)):
                 for req in requirement:
                     self.requires(req, remove=remove)
